@@ -76,7 +76,7 @@ def run(drv, tier, seed):
 def cross_build(drv, builds, plan, ti, seed):
     """Oracle 2: digests of observable behaviour, full build vs. each reduced build"""
     runs = max(plan["runs"][ti] // 3, 1000)
-    full = builds["hac"]
+    full = builds["hap"]
 
     def digests(binary):
         r = subprocess.run([binary, "digest", "--observable", "1", "--profiles", plan["profiles"], "--runs", str(runs),
@@ -99,9 +99,9 @@ def cross_build(drv, builds, plan, ti, seed):
     violations = 0
     masks = {"history": 1, "autocomplete": 2, "help": 4}
     for tag, binary in builds.items():
-        if tag == "hac":
+        if tag == "hap":
             continue
-        disabled = [f for f in masks if f[0] not in tag.replace("none", "")]
+        disabled = [f for f in masks if drv.FEATURE_LETTER[f] not in tag.replace("none", "")]
         dmask = sum(masks[f] for f in disabled)
         other = digests(binary)
         n = 0
@@ -121,7 +121,7 @@ def cross_build(drv, builds, plan, ti, seed):
                 path = os.path.join(drv.REPLAYS, f"C16-crossbuild-{tag}-s{seed}-r{idx}.trace")
                 with open(path, "w") as f:
                     f.write(f"# VIOLATION property=C16 check=cross_build: observable behaviour differs between the full build and the build without [{','.join(disabled)}] although that facility is never exercised\n")
-                    f.write(f"# compare: sim/bin/ecli-sim-hac replay {path} --verbose  vs  sim/bin/ecli-sim-{tag} replay {path} --verbose\n")
+                    f.write(f"# compare: sim/bin/ecli-sim-hap replay {path} --verbose  vs  sim/bin/ecli-sim-{tag} replay {path} --verbose\n")
                     f.write(r.stdout)
                 drv.say(f"VIOLATION property=C16 replay={path}")
                 drv.say(f"  check=cross_build: run {idx} behaves differently without [{','.join(disabled)}] although the facility is never used in it")
